@@ -5,13 +5,15 @@ import lib_doc as L
 from framework import Result
 
 ID = 'C02'
-LEAN_TARGETS = ['TexSoupProofs.Properties.C02', 'TexSoupProofs.Properties.C02Strings', 'TexSoupProofs.Properties.C02Sound']
+LEAN_TARGETS = ['TexSoupProofs.Properties.C02', 'TexSoupProofs.Properties.C02Strings', 'TexSoupProofs.Properties.C02Sound',
+                'TexSoupProofs.Properties.AllInputs']
 THEOREMS = ['TexSoup.C02.' + n for n in (
     'tree_mirrors_document', 'parse_complete', 'construct_read_back', 'zero_arg_operator_absorbs_nothing',
     'special_command_reads_args_in_special_mode', 'special_mode_is_inherited', 'begin_end_in_special_are_commands',
     'item_owns_up_to_stop', 'document_parses', 'document_parses_both', 'document_roundtrip', 'cert_sound',
     'grammar_exhaustive', 'reader_sound', 'parse_sound', 'parse_sound_of_checks',
-    'strict_parse_is_tolerant_parse')]
+    'strict_parse_is_tolerant_parse', 'grammar_exhaustive_tolerant')] + [
+    'TexSoup.Gram.peekCond_of_peek', 'TexSoup.readArg_math_nonMath', 'TexSoup.Gram.WFs_mle']
 PARTIAL = ['the Lean grammar (TexSoupModel/Grammar.lean) and the Python document generator (gen_doc.py) are two '
            'descriptions of "documented constructs": that the generator only emits documents of the proved grammar is '
            'not itself proved; the three-way comparison AST / implementation / model in this check ties them, and '
@@ -23,10 +25,12 @@ PARTIAL = ['the Lean grammar (TexSoupModel/Grammar.lean) and the Python document
            'take no continuation arguments',
            'the converse is proved as well (C02.parse_sound / grammar_exhaustive, TexSoupProofs/Sound): every strict parse '
            'whose tree is representable (no made-up arguments, fixed signatures as declared, one-token `{name}` groups, no '
-           'backslash at the very end; and, a gap of the proof, no argument-less command directly in front of a brace group '
-           'in a math-mode environment body) is treeD of a well-formed document with exactly the input\'s tokens – every '
-           'frame condition of the grammar is implied by the reader\'s success, so the grammar is not stricter than the '
-           'parser on representable inputs']
+           'backslash at the very end) is treeD of a well-formed document with exactly the input\'s tokens – every '
+           'frame condition of the grammar, including the look-ahead clause for an argument-less command in front of a '
+           'brace group in a math-mode environment body (Gram.peekCond_of_peek: derived from the success of that very '
+           'look-ahead), is implied by the reader\'s success, so the grammar is not stricter than the parser on '
+           'representable inputs; the same holds for the tolerant result whenever the strict read succeeds too '
+           '(C02.grammar_exhaustive_tolerant)']
 TRUSTED = ['harness/gen_doc.py (grammar of documented constructs, expected tree of a generated document, frame '
            'conditions, normal form of canonical trees: adjacent text leaves merged, positions dropped)',
            'correspondence harness (props/c02.py, lib_doc.py, common.py)']
